@@ -2,8 +2,8 @@
 """Regenerates MANIFEST.json from checks_conf.py + manifest_meta.py (run after editing either)."""
 import json, os, sys
 sys.path.insert(0, os.path.dirname(os.path.abspath(__file__)))
-from checks_conf import CHECKS
-from manifest_meta import META, HOOK_COMMITS, NOT_APPLICABLE_REASON
+from checks_conf import CHECKS, META
+from manifest_meta import HOOK_COMMITS, NOT_APPLICABLE_REASON
 
 props = [json.loads(l) for l in open("properties.jsonl")]
 checks, na = [], []
